@@ -36,7 +36,7 @@ package omap
 //@   ensures  [C04] inv: mapInv(m)
 //@   ensures  [C04] set: forall kv stree.KV[T, U] :: {rank(m.m.compare, kv)} kv.Key == key ==> (forall k int :: {k in m.m.elems} k in m.m.elems <==> (k == rank(m.m.compare, kv) || old(k in m.m.elems)))
 //@   ensures  [C04] fresh: forall kv stree.KV[T, U] :: {rank(m.m.compare, kv)} kv.Key == key ==> (result == !old(rank(m.m.compare, kv) in m.m.elems))
-//@   modifies m.m.root, m.m.size, m.m.max, m.m.elems, every(m.m.root.left), every(m.m.root.right), every(m.m.root.X), every(m.m.root.keys), every(m.m.root.desc)
+//@   modifies m.m.root, m.m.size, m.m.max, m.m.elems, every(m.m.root.left), every(m.m.root.right), every(m.m.root.X), every(m.m.root.keys), every(m.m.root.desc), every(m.m.root.cnt)
 //@
 //@ func (Map).Delete
 //@   requires [C04] mapInv(m)
@@ -44,7 +44,7 @@ package omap
 //@   ensures  [C04] zeromap: m.m == nil ==> !result
 //@   ensures  [C04] set: m.m != nil ==> forall kv stree.KV[T, U] :: {rank(m.m.compare, kv)} kv.Key == key ==> (forall k int :: {k in m.m.elems} k in m.m.elems <==> (old(k in m.m.elems) && k != rank(m.m.compare, kv)))
 //@   ensures  [C04] found: m.m != nil ==> forall kv stree.KV[T, U] :: {rank(m.m.compare, kv)} kv.Key == key ==> (result == old(rank(m.m.compare, kv) in m.m.elems))
-//@   modifies m.m.root, m.m.size, m.m.max, m.m.elems, every(m.m.root.left), every(m.m.root.right), every(m.m.root.X), every(m.m.root.keys), every(m.m.root.desc)
+//@   modifies m.m.root, m.m.size, m.m.max, m.m.elems, every(m.m.root.left), every(m.m.root.right), every(m.m.root.X), every(m.m.root.keys), every(m.m.root.desc), every(m.m.root.cnt)
 //@
 //@ func (Map).Clear
 //@   requires [C04] mapInv(m)
